@@ -12,7 +12,7 @@ from .heap import class_id
 class Contract:
     def __init__(self, qualname, *, types=None, requires=(), ensures=(), raises=None, modifies=(),
                  returns=None, loops=None, properties=(), pure=None, fresh=False, decreases=None,
-                 ghost_in=(), notes="", modifies_fields=None, opts=None, lemmas=(), defs=()):
+                 ghost_in=(), notes="", modifies_fields=None, opts=None, lemmas=(), defs=(), ghost_on_return=None):
         self.qualname = qualname
         self.types = types or {}
         self.requires = [_parse(x) for x in requires]
@@ -34,7 +34,20 @@ class Contract:
         self.decreases = decreases
         self.notes = notes
         self.opts = opts or {}
+        if "result_view" in self.opts:
+            # the caller is handed the logical sequence E instead of the (immutable) tuple the function builds; what
+            # makes this sound is proved on the body like every other postcondition: the result IS a tuple and equals E
+            # element by element
+            e = self.opts["result_view"]
+            extra = ["typ(result, 'tuple')", f"len(result) == len({e})",
+                     f"forall(lambda j: implies(0 <= j < len(result), same(result[j], ({e})[j])))"]
+            self.ensures += [_parse(x) for x in extra]
+            self.ensures_src += extra
+        if self.opts.get("entry_defined") and (modifies or modifies_fields):
+            raise ValueError(f"{qualname}: contracts over entry-defined predicates (has_table, first_table) need an empty frame")
         self.lemmas = list(lemmas)
+        # ghost attributes written on the (fresh) result when the function returns: name -> expression over the parameters
+        self.ghost_on_return = {k: _parse(v) for k, v in (ghost_on_return or {}).items()}
         # definitions of spec-level notions in terms of externals: assumed when verifying the body only
         self.defs = [_parse(x) for x in defs]
 
